@@ -243,7 +243,8 @@ class StaticUseDep(packages.PackageRestriction):
     def __init__(self, false_use, true_use):
         v = []
         if false_use:
-            v.append(values.ContainmentMatch(false_use, negate=True, match_all=True))
+            # every one of these must be off: none of them may be contained
+            v.append(values.ContainmentMatch(false_use, negate=True))
         if true_use:
             v.append(values.ContainmentMatch(true_use, match_all=True))
 
@@ -265,7 +266,9 @@ class _UseDepDefaultContainment(values.ContainmentMatch, caching=False):
 
     def __init__(self, if_missing: bool, vals, negate=False):
         self.if_missing = bool(if_missing)
-        super().__init__(vals, negate=negate, match_all=True)
+        # enabled flags must all be contained; disabled flags (negate) must
+        # all be absent, i.e. "any contained" negated- not "all contained" negated.
+        super().__init__(vals, negate=negate, match_all=not negate)
 
     def match(self, val):
         reduced_vals = self.vals
